@@ -573,7 +573,9 @@ def check_weighted(db, rep):
         (ra, appa), (rb, appb) = results
         # the weight vector may be the vector being transformed itself (x.WeightedRotation(V, x, W)): the result must be
         # what the formula gives with Yd = the ORIGINAL vector, for both overloads
-        for f in (fa, fb):
+        # (dimension 2 only: an implementation that works in place makes the weight a product of maps, and the symbolic
+        # result grows with the sixth power of the dimension)
+        for f in ((fa, fb) if d == 2 else ()):
             this, reg = make_suv('self', d, 'a')
             if f is fa:
                 a0 = Cell(Obj('squids::Const', None, 'V'), None, 0, 'V')
